@@ -1,4 +1,5 @@
 import Drv.Gen
+import Drv.Parse
 /-! Executable monitors: they judge an *observed* trace (operation lines + observation lines, normally the
     implementation's) against the properties. `C02` compares with the reference `R`; `C01`, `C03`, `C04`, `C05`
     are recomputed from the raw history, independently of `R`. A handle is judged only while its history stays
@@ -176,6 +177,121 @@ def judgePure (pm : PureMon) (ws : List String) (obs : String) : PureMon × List
     | none => (pm, [])
   | _ => (pm, [])
 
+
+/-! ### monitors of the text exports (C18, C20): the parsed text against the reference state -/
+
+def upperHex (bs : List UInt8) : String := (hexOfBytes bs).toUpper
+
+def sortStrs (l : List String) : List String := (l.toArray.qsort (· < ·)).toList
+
+def edgeKeys (es : List (String × Nat)) : List String := sortStrs (es.map (fun e => e.1 ++ ">" ++ toString e.2))
+
+/-- what the reference says a document must contain, as parsed nodes with edges in stored order -/
+def expectNodes (r : R) (cap : Nat) : List PNode :=
+  (R.keys r cap).map (fun v =>
+    { id := v, edges := (r.edg v).map (fun e => (String.ofList (Lb.print e.1), e.2)),
+      data := (r.dat v).map (fun d => upperHex d.toBytes) })
+
+/-- same ids in the same (ascending) order, per node the same edge entries (as a set) and the same data -/
+def nodesAgree (got want : List PNode) : Option String :=
+  if got.map (·.id) ≠ want.map (·.id) then some s!"vertices {showNats (got.map (·.id))}, present are {showNats (want.map (·.id))}"
+  else
+    match (got.zip want).find? (fun p => edgeKeys p.1.edges ≠ edgeKeys p.2.edges ∨ p.1.data ≠ p.2.data) with
+    | some (g, w) => some s!"vertex {g.id} shows {showPNodes [g]}, has {showPNodes [w]}"
+    | none => none
+
+def contentSig (ns : List PNode) : String :=
+  showPNodes (ns.map (fun n => { n with edges := (n.edges.toArray.qsort (fun a b => a.1 ++ ">" ++ toString a.2 < b.1 ++ ">" ++ toString b.2)).toList }))
+
+/-- vertices reachable from `v` through present vertices (BFS over the reference's edges) -/
+def reachPresent (r : R) (v : Nat) : List Nat :=
+  let step (s : List Nat) : List Nat :=
+    s.foldl (fun acc u => (r.edg u).foldl (fun acc e => if e.2 ∈ acc ∨ e.2 ∉ r.ids then acc else acc ++ [e.2]) acc) s
+  (List.range (r.ids.length + 1)).foldl (fun s _ => step s) [v]
+
+/-- the lines of an `inspect` text, each with the vertex whose edge it lists -/
+def withParents (v : Nat) (ls : List ILine) : List (Nat × ILine) :=
+  (ls.foldl (fun (acc : List (Nat × ILine) × List Nat) l =>
+    -- `stack[d]` = the vertex whose edges are listed at depth d
+    let stack := acc.2.take (l.depth + 1)
+    let parent := stack.getLastD v
+    (acc.1 ++ [(parent, l)], stack ++ [l.target])) ([], [v])).1
+
+def judgeInspect (r : R) (v : Nat) (ls : List ILine) : Option String :=
+  let wp := withParents v ls
+  let reach := reachPresent r v
+  match reach.find? (fun u =>
+    let listed := sortStrs ((wp.filter (·.1 = u)).map (fun p => p.2.label ++ ">" ++ toString p.2.target))
+    listed ≠ edgeKeys ((r.edg u).map (fun e => (String.ofList (Lb.print e.1), e.2)))) with
+  | some u =>
+    let listed := (wp.filter (·.1 = u)).map (fun p => p.2.label ++ ">" ++ toString p.2.target)
+    some s!"edges of reachable ν{u} listed as {listed}, it has {showEdges (r.edg u)}"
+  | none => none
+
+structure TextMon where
+  sigs : List (String × String × String) := []      -- (command, content signature, text)
+  xmlDocs : Nat := 0
+  dotDocs : Nat := 0
+  debugDocs : Nat := 0
+  inspects : Nat := 0
+  vprints : Nat := 0
+  sameContentPairs : Nat := 0
+  cyclesSeen : Nat := 0       -- inspect texts with at least one `…` line
+  exactTextDiffs : Nat := 0
+
+def judgeText (tm : TextMon) (m : HMon) (cmd : String) (arg : Option Nat) (obs : String) : TextMon × List (String × String) :=
+  match words obs with
+  | ["ok", t] =>
+    let text := unesc t
+    let want := expectNodes m.r m.cap
+    if cmd = "xml" ∨ cmd = "dot" then
+      let tm := if cmd = "xml" then { tm with xmlDocs := tm.xmlDocs + 1 } else { tm with dotDocs := tm.dotDocs + 1 }
+      match (if cmd = "xml" then parseXml text else parseDot text) with
+      | none => (tm, [("C18", s!"{cmd} text cannot be read back")])
+      | some got =>
+        match nodesAgree got want with
+        | some msg => (tm, [("C18", s!"{cmd}: {msg}")])
+        | none =>
+          let sg := contentSig want
+          match tm.sigs.find? (fun e => e.1 = cmd ∧ e.2.1 = sg) with
+          | some (_, _, other) =>
+            let tm := { tm with sameContentPairs := tm.sameContentPairs + 1 }
+            if other = text then (tm, []) else (tm, [("C18", s!"{cmd}: two graphs with the same content give different texts")])
+          | none => ({ tm with sigs := (cmd, sg, text) :: tm.sigs.take 400 }, [])
+    else if cmd = "debug" ∨ cmd = "display" then
+      let tm := { tm with debugDocs := tm.debugDocs + 1 }
+      match parseDebug text with
+      | none => (tm, [("C20", s!"{cmd} text cannot be read back")])
+      | some (got, _) =>
+        match nodesAgree got want with
+        | some msg => (tm, [("C20", s!"{cmd}: {msg}")])
+        | none => (tm, [])
+    else if cmd = "vprint" then
+      let tm := { tm with vprints := tm.vprints + 1 }
+      match parseVPrint text, arg with
+      | some (v, marker, labels), some a =>
+        let wantLabels := sortStrs ((m.r.edg a).map (fun e => String.ofList (Lb.print e.1)))
+        if a ∉ m.r.ids then (tm, [])
+        else if v ≠ a ∨ marker ≠ (m.r.dat a).isSome ∨ sortStrs labels ≠ wantLabels then
+          (tm, [("C20", s!"v_print shows marker={marker} labels={labels}; the vertex has data={(m.r.dat a).isSome} labels={wantLabels}")])
+        else (tm, [])
+      | _, _ => (tm, [("C20", "v_print text cannot be read back")])
+    else if cmd = "inspect" then
+      let tm := { tm with inspects := tm.inspects + 1 }
+      match parseInspect text, arg with
+      | some (v, ls), some a =>
+        let tm := if ls.any (·.ellipsis) then { tm with cyclesSeen := tm.cyclesSeen + 1 } else tm
+        if a ∉ m.r.ids then (tm, [])
+        else if v ≠ a then (tm, [("C20", s!"inspect starts at ν{v}")])
+        else match judgeInspect m.r a ls with
+          | some msg => (tm, [("C20", "inspect: " ++ msg)])
+          | none => (tm, [])
+      | _, _ => (tm, [("C20", "inspect text cannot be read back")])
+    else (tm, [])
+  | _ =>
+    if cmd = "xml" ∨ cmd = "dot" then (tm, [("C18", s!"{cmd} answered '{obs.take 40}'")])
+    else (tm, [("C20", s!"{cmd} answered '{obs.take 40}' (no text: panic, abort or time-out)")])
+
 structure JSt where
   mons : Array (Option HMon) := #[]
   rejects : Array Reject := #[]
@@ -185,6 +301,7 @@ structure JSt where
   histMark : Stats := {}               -- statistics at that line
   hists : Array String := #[]          -- one summary per finished history
   pm : PureMon := {}
+  tm : TextMon := {}
 
 def JSt.getMon (j : JSt) (h : Nat) : Option HMon := j.mons.getD h none
 def JSt.setMon (j : JSt) (h : Nat) (m : HMon) : JSt :=
@@ -330,7 +447,7 @@ def JSt.closeHist (j : JSt) (lastLine : Nat) : JSt :=
     let b := j.stats
     { j with hists := j.hists.push s!"HIST {j.histStart} {lastLine} {b.collections - a.collections} {b.readds - a.readds} {b.overwrites - a.overwrites} {b.nextIds - a.nextIds} {b.judgedCalls - a.judgedCalls}" }
 
-def judgeLine (j : JSt) (lineNo : Nat) (opLine obsLine : String) : JSt :=
+def judgeLine2 (j : JSt) (lineNo : Nat) (opLine obsLine : String) : JSt :=
   let j := { j with stats := { j.stats with calls := j.stats.calls + 1 } }
   match words opLine with
   | ["reset"] =>
@@ -418,8 +535,38 @@ def judgeLine (j : JSt) (lineNo : Nat) (opLine obsLine : String) : JSt :=
             | _ => j
   | _ => j
 
+/-- the text exports first, then everything else -/
+def judgeLine (j : JSt) (lineNo : Nat) (opLine obsLine : String) : JSt :=
+  match words opLine with
+  | [cmd, a] =>
+    if cmd = "xml" ∨ cmd = "dot" ∨ cmd = "debug" ∨ cmd = "display" then
+      match (parseHandle a).bind j.getMon with
+      | some m =>
+        if m.judged then
+          let (tm, rej) := judgeText j.tm m cmd none obsLine
+          let j := { j with tm := tm }
+          rej.foldl (fun j (p, msg) => j.reject p lineNo (opLine.trimAscii.toString ++ ": " ++ msg)) j
+        else j
+      | none => j
+    else judgeLine2 j lineNo opLine obsLine
+  | [cmd, a, v] =>
+    if cmd = "inspect" ∨ cmd = "vprint" then
+      match (parseHandle a).bind j.getMon with
+      | some m =>
+        if m.judged then
+          let (tm, rej) := judgeText j.tm m cmd v.toNat? obsLine
+          let j := { j with tm := tm }
+          rej.foldl (fun j (p, msg) => j.reject p lineNo (opLine.trimAscii.toString ++ ": " ++ msg)) j
+        else j
+      | none => j
+    else judgeLine2 j lineNo opLine obsLine
+  | _ => judgeLine2 j lineNo opLine obsLine
+
 def PureMon.json (p : PureMon) : String :=
   "{" ++ s!"\"hex_lines\":{p.hexLines},\"concat_lines\":{p.concatLines},\"concat_law_failures\":{p.concatDefect},\"label_lines\":{p.labelLines},\"legal_texts\":{p.legalTexts},\"distinct_labels\":{p.seen.length},\"panics_agreed_with_slice\":{p.panicsAgreed}" ++ "}"
+
+def TextMon.json (t : TextMon) : String :=
+  "{" ++ s!"\"xml_docs\":{t.xmlDocs},\"dot_docs\":{t.dotDocs},\"debug_docs\":{t.debugDocs},\"inspect_texts\":{t.inspects},\"inspect_with_cycle_marks\":{t.cyclesSeen},\"vprint_texts\":{t.vprints},\"same_content_pairs\":{t.sameContentPairs}" ++ "}"
 
 def Stats.json (s : Stats) : String :=
   "{" ++ s!"\"histories\":{s.histories},\"calls\":{s.calls},\"judged_calls\":{s.judgedCalls},\"collections\":{s.collections},\"collected_vertices\":{s.collected},\"left_quantifier\":{s.invalidStops},\"panics\":{s.panics},\"next_ids\":{s.nextIds},\"readds\":{s.readds},\"overwriting_puts\":{s.overwrites},\"max_groups\":{s.maxGroups},\"max_members\":{s.maxMembers}" ++ "}"
